@@ -23,7 +23,18 @@ Chains == <<
   \* utf16le: the name the Sigma specification gives the wide modifier (a library that does not know it rejects it)
   <<"utf16le">>, <<"utf16le", "base64">>, <<"utf16le", "base64offset">> >>
 \* payload p is a sequence of literal characters; its source text escapes what must be escaped
-Cases == {[payload |-> p, src |-> RefPlain(p), chain |-> Chains[Shard]] : p \in Payloads}
+\* a value that holds an UNESCAPED wildcard (wild = its code point) has no byte string: a Base64 chain must refuse it
+\* (the backslash is left out of these payloads: before a wildcard it would escape it)
+Min2(a, b) == IF a < b THEN a ELSE b
+Pre(p, k) == [i \in 1..Min2(k, Len(p)) |-> p[i]]
+Post(p, k) == [i \in 1..(Len(p) - Min2(k, Len(p))) |-> p[Min2(k, Len(p)) + i]]
+WildPayloads == SeqsUpTo(Alpha \ {92}, 2)
+HasB64 == \E i \in 1..Len(Chains[Shard]) : Chains[Shard][i] \in {"base64", "base64offset"}
+WildCases == IF ~HasB64 THEN {} ELSE
+             {[payload |-> p, src |-> RefPlain(Pre(p, k)) \o <<w>> \o RefPlain(Post(p, k)), chain |-> Chains[Shard], wild |-> w]
+                : p \in WildPayloads, k \in 0..2, w \in {42, 63}}
+Cases == {[payload |-> p, src |-> RefPlain(p), chain |-> Chains[Shard], wild |-> 0] : p \in Payloads}
+         \cup WildCases
 ASSUME LET S == SetToSeq(Cases)
        IN  ndJsonSerialize(IOEnv.VERIF_OUT, [i \in 1..Len(S) |-> [id |-> Shard * 1000000 + i] @@ S[i]])
 Init == x = 0
